@@ -23,7 +23,10 @@ func init() { Register("C13", runC13) }
 
 // ---------- schema / collection identifiers ----------
 
-type c13link struct{ from, to int }
+type c13link struct {
+	from, to int
+	many     bool // false: one-to-one with an explicit @primary on from; true: many-to-one (from holds the key, implied primary; to lists [from])
+}
 
 var c13names = []string{"A", "B", "C", "D"}
 
@@ -36,6 +39,12 @@ func c13Types(n int, links []c13link, revFields bool) []string {
 	}
 	for _, l := range links {
 		rel := strings.ToLower(c13names[l.from] + c13names[l.to])
+		if l.many {
+			rel = "m" + rel
+			fields[l.from] = append(fields[l.from], fmt.Sprintf(`k_%s: %s @relation(name: "%s")`, rel, c13names[l.to], rel))
+			fields[l.to] = append(fields[l.to], fmt.Sprintf(`l_%s: [%s] @relation(name: "%s")`, rel, c13names[l.from], rel))
+			continue
+		}
 		fields[l.from] = append(fields[l.from], fmt.Sprintf(`p_%s: %s @primary @relation(name: "%s")`, rel, c13names[l.to], rel))
 		fields[l.to] = append(fields[l.to], fmt.Sprintf(`s_%s: %s @relation(name: "%s")`, rel, c13names[l.from], rel))
 	}
@@ -150,12 +159,27 @@ func runC13(args []string) int {
 		var all []c13link
 		for a := 0; a < n; a++ {
 			for b := 0; b < n; b++ {
-				all = append(all, c13link{a, b})
+				all = append(all, c13link{from: a, to: b})
 			}
 		}
 		var rec func(start int, cur []c13link)
 		rec = func(start int, cur []c13link) {
 			graphs = append(graphs, graph{n, append([]c13link{}, cur...)})
+			if len(cur) > 0 {
+				// the same graph with many-to-one links (implied primary side): all of them, and in the
+				// thorough tier every mix of the two kinds
+				lo, hi := (1<<len(cur))-1, (1<<len(cur))-1
+				if tier == "thorough" {
+					lo = 1
+				}
+				for mask := lo; mask <= hi; mask++ {
+					g := graph{n, append([]c13link{}, cur...)}
+					for i := range g.links {
+						g.links[i].many = mask&(1<<i) != 0
+					}
+					graphs = append(graphs, g)
+				}
+			}
 			if len(cur) == maxLinks {
 				return
 			}
